@@ -3,6 +3,7 @@ import JobShopModel.Rules
 import JobShopModel.Equality
 import JobShopModel.Views
 import JobShopModel.Features
+import JobShopModel.Generator
 /-!
 # Line-protocol driver for the executable model
 
@@ -506,6 +507,14 @@ def stepAll (d : DW) (line : String) : DW × String :=
         | (fw', none) => ({ d with fw := fw' }, "raise"))
      | none => (d, "bad-op"))
   | ["fsnap"] => (d, fworldSnapshot d.fw)
+  | "gen" :: rest =>
+    match ints? rest with
+    | some (j1 :: j2 :: m1 :: m2 :: d1 :: d2 :: al :: rc :: k1 :: k2 :: n :: draws) =>
+      let p : GenParams := ⟨(j1.toNat, j2.toNat), (m1.toNat, m2.toNat), (d1, d2), al != 0, rc != 0, (k1.toNat, k2.toNat)⟩
+      (match iterate p n.toNat { draws := draws.map Int.toNat } with
+       | .ok (l, _) => (d, " ; ".intercalate (l.map fun (I, name) => s!"{name} {fmtInstance I}"))
+       | .error _ => (d, "raise"))
+    | _ => (d, "bad-op")
   | ["graph", b] =>
     match parseBuilder b with
     | some bb => (d, fmtGraph (build bb d.w.cfg.I))
